@@ -7,6 +7,7 @@ CONSTANTS
   Exp = 2
   MaxClock = 2
   FetchUnderLock = TRUE
+  AnyIdx = FALSE
   MaxReq = 2
   Invals = {FALSE}
   MCStatuses = {200}
